@@ -235,3 +235,27 @@ Definition spelling_ok (p : sparams) (sp : spelling) (v : bytes) : bool :=
   | SpLit => negb (too_big p (blen v)) && sp_allow_cont p
   | SpLitPlus => negb (too_big p (blen v))
   end.
+
+(* ------------------------------------------- astring-like with another atom class *)
+(* the shape of AString.parse for any atom class: ListCommand reads its pattern
+   argument this way with the list-mailbox class *)
+Definition parse_cstring (cls : N -> bool) (p : sparams) (cs : list bytes) (b : bytes)
+  : pres (bytes * bytes) :=
+  match parse_class cls b with
+  | Some (a, r) => POk (a, a) r cs
+  | None => parse_string p cs b
+  end.
+
+Definition is_class_atom (cls : N -> bool) (v : bytes) : bool :=
+  match v with [] => false | _ => forallb cls v end.
+
+Definition spelling_okc (cls : N -> bool) (p : sparams) (sp : spelling) (v : bytes) : bool :=
+  match sp with
+  | SpAtom => is_class_atom cls v
+  | _ => spelling_ok p sp v
+  end.
+
+(* ListCommand._list_mailbox_pattern  [\x21\x23-\x27\x2A-\x5B\x5D-\x7A\x7C\x7E] *)
+Definition listmb_char (c : N) : bool :=
+  (c =? 33) || in_range 35 39 c || in_range 42 91 c || in_range 93 122 c ||
+  (c =? 124) || (c =? 126).
